@@ -76,7 +76,9 @@ HEX32 = re.compile(r"^[0-9a-f]{32}$")
 
 # ------------------------------------------------------------------------------ program alphabet
 
-MSGS_Q = {"empty": "", "short": "boom", "long600": "L" * 600, "multiline": "line1\nline2\r\n\tend", "b501": "b" * 501}
+MSGS_Q = {"empty": "", "short": "boom", "long600": "L" * 600, "multiline": "line1\nline2\r\n\tend", "b501": "b" * 501,
+          # text with whitespace / newline at both edges, and a newline-only text: "full message" includes the edges
+          "edgews": "  indented detail: column 3\n", "nlonly": "\n"}
 MSGS_T = dict(
     MSGS_Q,
     b500="c" * 500,
